@@ -39,6 +39,9 @@ func (api *PcApi) HandleLogsStream(c *gin.Context) {
 		logChan := make(chan LogMessage, 256)
 		chanCloseMtx := &sync.Mutex{}
 		isChannelClosed := false
+		// closed when the writer goroutine of this follower is gone: nobody
+		// drains logChan any more, so senders must not block on it
+		gone := make(chan struct{})
 		connector := pclog.NewConnector(
 			func(messages []string) {
 				for _, message := range messages {
@@ -46,7 +49,11 @@ func (api *PcApi) HandleLogsStream(c *gin.Context) {
 						Message:     message,
 						ProcessName: procName,
 					}
-					logChan <- msg
+					select {
+					case logChan <- msg:
+					case <-gone:
+						return
+					}
 				}
 				if !follow {
 					chanCloseMtx.Lock()
@@ -65,11 +72,15 @@ func (api *PcApi) HandleLogsStream(c *gin.Context) {
 				if isChannelClosed {
 					return 0, nil
 				}
-				logChan <- msg
+				select {
+				case logChan <- msg:
+				case <-gone:
+					return 0, nil
+				}
 				return len(message), nil
 			},
 			endOffset)
-		go api.handleLog(ws, procName, connector, logChan, done)
+		go api.handleLog(ws, procName, connector, logChan, done, gone)
 
 		err = api.project.GetLogsAndSubscribe(procName, connector)
 		if err != nil {
@@ -80,7 +91,7 @@ func (api *PcApi) HandleLogsStream(c *gin.Context) {
 
 }
 
-func (api *PcApi) handleLog(ws *websocket.Conn, procName string, connector *pclog.Connector, logChan chan LogMessage, done chan struct{}) {
+func (api *PcApi) handleLog(ws *websocket.Conn, procName string, connector *pclog.Connector, logChan chan LogMessage, done chan struct{}, gone chan struct{}) {
 	defer func(project app.IProject, name string, observer pclog.LogObserver) {
 		err := project.UnSubscribeLogger(name, observer)
 		if err != nil {
@@ -88,6 +99,9 @@ func (api *PcApi) handleLog(ws *websocket.Conn, procName string, connector *pclo
 		}
 	}(api.project, procName, connector)
 	defer ws.Close()
+	// runs first: release a log writer that is blocked on logChan while it
+	// holds the buffer lock the unsubscription above needs
+	defer close(gone)
 	for {
 		select {
 		case msg, open := <-logChan:
@@ -106,7 +120,7 @@ func (api *PcApi) handleLog(ws *websocket.Conn, procName string, connector *pclo
 			}
 		case <-done:
 			log.Warn().Msg("Socket closed remotely")
-			close(logChan)
+			// logChan is not closed here: the observer may be sending on it
 			return
 		}
 
